@@ -395,6 +395,7 @@ impl Check for C07 {
             ctx.tier.pick(2, 3),
             mutating_bodies().len()
         );
+        ctx.rule.push_str("; iterables and range bounds evaluated once (bounds changed by the body, bounds and iterables that are calls, bounds read from elements and properties)");
         let mut batch: Vec<Case> = vec![];
         let mut skeletons = 0u64;
         let mut seen_pairs: std::collections::HashSet<(u8, u8)> = std::collections::HashSet::new();
